@@ -117,6 +117,8 @@ def fieldsLine (st : FdRun) (lineNo : Nat) (line : String) : Except String (FdRu
           (if perr == "-" && viaNew && !(wantNames.all fun n => reqs.contains n) then [s!"PROPFAIL C20 all_named_requested {tag} reqs={reqs} names={wantNames}"] else []) ++
           (if perr != "-" || (get "aerr") != "-" && viaNew || wrongJson.isEmpty then [] else [s!"PROPFAIL C20 apply_fills {tag} wrong_json={wrongJson.map (·.1)} vals={get "vals"}"]) ++
           (if perr != "-" || wrongVals.isEmpty then [] else [s!"PROPFAIL C20 apply_fills {tag} wrong={wrongVals.map (·.1)} vals={get "vals"}"]) ++
+          (if get "second" == "-" || (get "second").endsWith ":ok" then [] else
+            [s!"PROPFAIL C20 apply_fills {tag} second={get "second"} (a pointer field whose first decode failed stays unfilled after the secret was repaired and the Fields applied again)"]) ++
           (if get "untouched" == "1" then [] else [s!"PROPFAIL C20 untagged_untouched {tag} vals={get "vals"}"]) ++
           -- every failure the model knows of (missing secret, rejecting unmarshaler) must be reported...
           (if perr != "-" || (failed.all fun f => mentioned f) then [] else [s!"PROPFAIL C20 errors_reported {tag} failed={failed} aerr={aerrTxt.take 200}"]) ++
